@@ -301,6 +301,9 @@ func executeA(t *testing.T, c CaseA) (kind, detail string) {
 		}
 		_, _, e1 := cs.accepted()
 		_, _, e2 := ss.accepted()
+		if world.Fate(c.Faults[0].Fate) == world.Foreign {
+			return // a refusal is not a loss: the exchange it hits may fail visibly
+		}
 		if len(e1)+len(e2) > 0 {
 			kind, detail = "isolated-loss-surfaced|"+world.Fate(c.Faults[0].Fate).String(), fmt.Sprintf("a Write returned an error although the only fault was isolated: client=%v server=%v", e1, e2)
 			return
@@ -362,6 +365,8 @@ func (p *pair) exchange(f world.Fate) error {
 	switch f {
 	case world.QueryLost:
 		return nil
+	case world.Foreign:
+		return nil // the server refuses before touching the session and the client drops the refusal: for the queues, a lost query
 	case world.AnswerLost:
 		p.serverHandle(r)
 		return nil
@@ -886,7 +891,7 @@ func TestCheck(t *testing.T) {
 		}
 		for _, w := range runs {
 			wrapAt := 65536 - int(w.start) // packet number that carries sequence number 0
-			for fate := 1; fate < int(world.NumFates); fate++ {
+			for fate := 1; fate < int(world.Foreign); fate++ { // (a refused query never reaches the queues: Layer A has that fate)
 				for at := wrapAt - 3; at <= wrapAt+2; at++ {
 					for try := 0; try < 2; try++ {
 						if r.Mine(idx) && !r.OverBudget() {
